@@ -8,6 +8,14 @@ Second half: the real machine run step by step on small pairs; after `disparity`
 pixel's disparity lies in its own interval (and, after `disparity`, is a sample with a numeric cost — theorem
 `wta_in_pixel_interval`), at the end of the pipeline in the global interval; the stored `disparity_interval` is
 the interval searched (`stored_interval`).
+Pipeline composition (Properties/C09Pipeline.lean): the map *entering* every step of the tail (refinement, filter,
+validation) is handed to the Lean driver (`C09.hyp`), which evaluates on it the hypotheses of the composition
+theorems with the definitions the theorems use: the invariant (`boundedValidB gmin gmax`: every valid pixel carries a
+number of the global interval — in particular no valid pixel is NaN —, `oneFlag`: never both bit 8 and bit 9) and, for a
+refinement step, `refineReadyB` (the map is on the sample grid of the cost volume the step reads, every valid pixel
+inside its own interval, one cost per sample, NaN costs outside the pixel's interval, bit 3 clear unless the step
+or-s its flag) and "first / last disparity of the cost volume inside the requested interval".  A hypothesis that
+fails is reported even when the conclusion still holds on the sampled input.
 """
 from __future__ import annotations
 
@@ -47,7 +55,8 @@ _install_known()
 def translate():
     from translator import registry
 
-    return registry.generate("MatchingCostConsts", "Constants")
+    # Interp / Blocks / RefineCC: the composition theorems are stated over the step models of C14 / C10 / C06-C07
+    return registry.generate("MatchingCostConsts", "Constants", "Interp", "Blocks", "RefineCC")
 
 
 # --------------------------------------------------------------------------------------------
@@ -199,8 +208,105 @@ def gen_pipeline(rng, case):
     return pipe
 
 
+def gen_offgrid_pipeline(rng, case):
+    """the shape excluded from the composition theorems (C06-F5): a step that may move valid disparities off the sample
+    grid (bilateral / median filter, validation with filling), THEN refinement; the machine accepts it"""
+    from ..impl import mc_adapter as A
+
+    pipe = {"matching_cost": A.mc_cfg(case)}
+    pipe["disparity"] = {"disparity_method": "wta", "invalid_disparity": rng.choice(["NaN", -9999])}
+    r = rng.random()
+    if r < 0.5:
+        pipe["filter"] = {"filter_method": "bilateral", "sigma_color": rng.choice([2.0, 4.0]), "sigma_space": rng.choice([1.0, 6.0])}
+    elif r < 0.8:
+        pipe["filter"] = {"filter_method": "median", "filter_size": 3}
+    else:
+        pipe["validation"] = {"validation_method": "cross_checking_accurate", "cross_checking_threshold": rng.choice([0.0, 1.0]),
+                              "interpolated_disparity": rng.choice(["mc-cnn", "sgm"])}
+    pipe["refinement"] = {"refinement_method": rng.choice(["vfit", "vfit", "quadratic"])}
+    if rng.random() < 0.3:
+        pipe["filter.after"] = {"filter_method": "median", "filter_size": 3}
+    return pipe
+
+
 def enc_map(a):
     return [[core.enc(float(v)) for v in row] for row in a]
+
+
+_FIX_OR = {}
+
+
+def refinement_ors_flag():
+    """does `loop_refinement` raise bit 3 with `|=` (read in the source text, translator T11); when the text cannot be
+    read the stricter hypothesis (bit 3 clear) is evaluated"""
+    if "v" not in _FIX_OR:
+        try:
+            from translator import gen_refine_cc
+
+            _FIX_OR["v"] = bool(gen_refine_cc.extract()["flag_update_is_or"])
+        except Exception:  # pylint: disable=broad-except
+            _FIX_OR["v"] = False
+    return _FIX_OR["v"]
+
+
+def moves_disparities(name, pipe):
+    """may this step leave a valid disparity off the sample grid (filters, filling, refinement itself)?"""
+    kind = name.split(".")[0]
+    if kind in ("filter", "refinement"):
+        return True
+    return kind == "validation" and "interpolated_disparity" in pipe[name]
+
+
+def check_entry(ctx, report, case, pipe, payload, name, prev_name, prev, coords, gmin, gmax, moved_by):
+    """Hypotheses of the composition theorems (Properties/C09Pipeline.lean) on the REAL map entering step `name`
+    (= what `prev_name` left), evaluated by the Lean driver with the definitions the theorems use.
+    `moved_by`: the first earlier step of the tail that may have taken disparities off the sample grid (None: the map
+    still carries what the disparity step wrote).  Returns False when a refinement step is entered with a map that is
+    not `refineReadyB` (the excluded shape: the conclusions are then judged under their own trigger)."""
+    kind = name.split(".")[0]
+    prev_kind = prev_name.split(".")[0]
+    rows, cols = case["rows"], case["cols"]
+    pl = {"rows": rows, "cols": cols, "disp": enc_map(prev["map"]),
+          "mask": [[int(v) for v in row] for row in prev["mask"]], "lo": int(gmin), "hi": int(gmax)}
+    if kind == "refinement":
+        pmin, pmax = G.expand_disp(case["disp"], rows, cols)
+        pl["refine"] = {"cv": G.enc_volume(prev["cv"]), "sp": case["subpix"], "dmin": core.enc(float(coords[0])),
+                        "dmax": core.enc(float(coords[-1])), "pmin": pmin, "pmax": pmax, "fix_or": refinement_ors_flag()}
+    out = ctx.lean.call("C09.hyp", **pl)
+    where = f"entering_{kind}_after_{prev_kind}"
+    if not out["bounded"]:
+        report.fail("hyp_valid_pixels_bounded", where, payload, {"step": name, "bad": out["bad_bounded"]},
+                    f"{out['n_bad_bounded']} valid pixels of the map entering {name} carry NaN or a disparity outside "
+                    f"[{gmin}, {gmax}]: {json.dumps(out['bad_bounded'][:1])}")
+    elif out["n_valid"]:
+        report.hit("hyp_valid_pixels_bounded", out["n_valid"])
+    if not out["one_flag"]:
+        report.fail("hyp_never_both_bits_8_9", where, payload, {"step": name, "bad": out["bad_one_flag"]},
+                    f"the map entering {name} has pixels flagged both occlusion and mismatch: {json.dumps(out['bad_one_flag'][:1])}")
+    else:
+        report.hit("hyp_never_both_bits_8_9")
+    ready = True
+    if kind == "refinement":
+        if not out["ends_in_interval"]:
+            report.fail("hyp_refine_cv_ends_in_interval", "cost_volume_coords", payload, {"coords": [coords[0], coords[-1]]},
+                        f"the cost volume read by {name} spans [{coords[0]}, {coords[-1]}], not inside [{gmin}, {gmax}]")
+        else:
+            report.hit("hyp_refine_cv_ends_in_interval")
+        if out["refine_ready"]:
+            report.hit("hyp_refine_entry_ready", out["n_valid"])
+        else:
+            ready = False
+            for why in out["refine_whys"]:
+                if moved_by is None:
+                    # nothing moved the disparities since winner-takes-all: `wtaMap_refineReady` promises this hypothesis
+                    report.fail("hyp_refine_entry_ready", f"{why}_after_{prev_kind}", payload,
+                                {"step": name, "bad": out["bad_refine"]},
+                                f"{out['n_bad_refine']} pixels of the map entering {name} are not what refinement assumes "
+                                f"({why}): {json.dumps(out['bad_refine'][:1])}")
+                else:
+                    # the excluded shape (C06-F5): refinement of a map a filter / a filling / a refinement has moved
+                    report.count(f"excluded_shape:{why}_entering_refinement_after_{moved_by.split('.')[0]}")
+    return ready
 
 
 def check_pipeline(ctx, report, case, pipe, label):
@@ -221,13 +327,29 @@ def check_pipeline(ctx, report, case, pipe, label):
     gmin, gmax = G.sampled_extremes(case)
     last_disp = None
     nvalid_total = 0
+    coords = None  # disparity coordinates of the cost volume
+    moved_by = None  # first step of the tail that may have moved disparities off the sample grid
+    offgrid_refinement = False  # some refinement step received a map that is not `refineReadyB`
     for name, snap in res["steps"]:
+        if snap["state"] == "cost_volume":
+            coords = snap["disp"]
         if snap["state"] != "disp_map":
             continue
         kind = name.split(".")[0]
+        if last_disp is not None and kind in ("refinement", "filter", "validation") and coords:
+            if not check_entry(ctx, report, case, pipe, payload, name, last_disp[0], last_disp[1], coords, gmin, gmax, moved_by):
+                offgrid_refinement = True
+        moved_before = moved_by is not None
+        if last_disp is not None and moved_by is None and moves_disparities(name, pipe):
+            moved_by = name
         last_disp = (name, snap)
         valid = [[(int(snap["mask"][r][c]) & INVALID_BITS) == 0 for c in range(cols)] for r in range(rows)]
-        if kind in ("disparity", "refinement"):
+        if kind == "refinement" and moved_before:
+            # "within its own per-pixel interval right after the disparity and refinement steps": nothing is claimed of a
+            # refinement that follows a filter / a filling / another refinement (a median of neighbours with other
+            # intervals legitimately leaves the pixel's own interval); the global interval is still judged at the end
+            report.count("refinement_after_moving_step:per_pixel_clause_not_claimed")
+        elif kind in ("disparity", "refinement"):
             pl = G.payload(case, "left")
             pl.update({"disp": enc_map(snap["map"]), "valid_px": valid, "mode": "pixel"})
             if kind == "disparity":
@@ -251,6 +373,15 @@ def check_pipeline(ctx, report, case, pipe, label):
                     report.hit("stored_interval")
     if last_disp is not None:
         name, snap = last_disp
+        # the other half of the invariant the tail keeps (`runSteps_inv`): never both bit 8 and bit 9, also at the end
+        inv = ctx.lean.call("C09.hyp", rows=rows, cols=cols, disp=enc_map(snap["map"]),
+                            mask=[[int(v) for v in row] for row in snap["mask"]], lo=int(gmin), hi=int(gmax))
+        if not inv["one_flag"]:
+            report.fail("hyp_never_both_bits_8_9", "final_map_after_" + name.split(".")[0], payload,
+                        {"step": name, "bad": inv["bad_one_flag"]},
+                        f"the final map has pixels flagged both occlusion and mismatch: {json.dumps(inv['bad_one_flag'][:1])}")
+        else:
+            report.hit("hyp_never_both_bits_8_9")
         valid = [[(int(snap["mask"][r][c]) & INVALID_BITS) == 0 for c in range(cols)] for r in range(rows)]
         pl = G.payload(case, "left")
         pl.update({"disp": enc_map(snap["map"]), "valid_px": valid, "mode": "global"})
@@ -261,6 +392,8 @@ def check_pipeline(ctx, report, case, pipe, label):
             steps = "+".join(n.split(".")[0] for n in pipe)
             filled = "interpolated_disparity" in pipe.get("validation", {})
             trig = "final_outside_after_" + (pipe["validation"]["interpolated_disparity"] + "_filling" if filled else steps)
+            if offgrid_refinement:
+                trig = "final_outside_after_offgrid_refinement"
             report.fail("final_in_global_interval", trig, payload, {"step": name, "bad": out["bad"]},
                         f"{out['n_bad']} valid pixels end outside the requested global interval [{gmin}, {gmax}]: {json.dumps(out['bad'][:1])}")
         if snap.get("interval") is not None and snap.get("interval") != [float(gmin), float(gmax)]:
@@ -324,6 +457,18 @@ def pipeline_stream(ctx, n, rng=None):
         yield case, gen_pipeline(rng, case)
 
 
+def offgrid_stream(ctx, n, rng=None):
+    import random
+
+    rng = rng or random.Random(ctx.seed * 7919 + 909)  # its own stream: the two older streams are left as they were
+    for i in range(n):
+        case = base_case(rng, small=True)
+        case = G.correlated_pair(rng, case) if rng.random() < 0.7 else case
+        if i % 4 == 0:
+            case = grid_of(rng, case)
+        yield case, gen_offgrid_pipeline(rng, case)
+
+
 def run_corpus_case(ctx, report, name, data, with_model=True):
     if "pipeline" in data:
         check_pipeline(ctx, report, data["case"], data["pipeline"], "corpus:" + name)
@@ -338,8 +483,9 @@ def run(ctx, report, status):
         "pair/masks/configuration with different requested disparities — nested scalar intervals, per-pixel grids vs the "
         "scalar interval of their extremes, constant grids vs the scalar interval, nested grid pairs; second half: random "
         "single-scale pipelines (wta, optional cbca, vfit/quadratic refinement, median/bilateral filter, cross-checking with "
-        "mc-cnn/sgm filling) run step by step on small pairs with scalar intervals or grids; non-trivial = some compared "
-        "cell / some valid pixel; distinct by full input"
+        "mc-cnn/sgm filling) run step by step on small pairs with scalar intervals or grids, the map entering every step of "
+        "the tail being checked against the hypotheses of the composition theorems (C09.hyp); plus pipelines of the excluded "
+        "shape (filter or filling BEFORE refinement); non-trivial = some compared cell / some valid pixel; distinct by full input"
     )
     for name, data in core.load_corpus(PROP):
         run_corpus_case(ctx, report, name, data)
@@ -347,6 +493,8 @@ def run(ctx, report, status):
         check_pair(ctx, report, c1, c2, kind, agg)
     for case, pipe in pipeline_stream(ctx, ctx.n(60, 1500)):
         check_pipeline(ctx, report, case, pipe, "random")
+    for case, pipe in offgrid_stream(ctx, ctx.n(20, 400)):
+        check_pipeline(ctx, report, case, pipe, "filter_or_filling_before_refinement")
 
 
 def search(ctx, report, status):
@@ -369,6 +517,11 @@ def search(ctx, report, status):
         if f:
             return f
     for case, pipe in pipeline_stream(ctx, 400, rng):
+        check_pipeline(ctx, sub, case, pipe, "search")
+        f = unknown()
+        if f:
+            return f
+    for case, pipe in offgrid_stream(ctx, 200, rng):
         check_pipeline(ctx, sub, case, pipe, "search")
         f = unknown()
         if f:
